@@ -475,6 +475,13 @@ func (c *FnCtx) modFrame(con *Contract, env *specEnv) map[string][]string {
 				}
 				specFail("no field %s", n.Name)
 			case *ECall:
+				if n.Fun == "ghost" && len(n.Args) == 2 {
+					if nm, ok := n.Args[1].(*EStr); ok {
+						addRef("GH_g_"+nm.Val, "(Array Int Int)", c.refOf(env.eval(n.Args[0])))
+						return
+					}
+					specFail("bad ghost item")
+				}
 				if len(n.Args) != 1 {
 					specFail("bad modifies item")
 				}
